@@ -3,6 +3,7 @@ package sanitize
 import (
 	"github.com/vedadiyan/genql"
 	verif "github.com/vedadiyan/genql/zz_verif"
+	"math"
 )
 
 const c16Alphabet = "'\\-# a\";/*\x00\xc3"
@@ -65,7 +66,7 @@ func H_C16_shape_str() {
 // H_C16_echo_scalar: int64 / float64 / bool / NULL arguments in three
 // syntactic positions.
 func H_C16_echo_scalar() {
-	kind := verif.Choose("kind", 4)
+	kind := verif.Choose("kind", 6)
 	tpl := verif.Choose("template", 3)
 	templates := []string{"SELECT $1 AS v FROM dual", "SELECT 1-$1 AS v FROM dual", "SELECT 1 - $1 AS v FROM dual"}
 	var arg any
@@ -85,9 +86,19 @@ func H_C16_echo_scalar() {
 		arg, want = b, b
 	case 3:
 		arg, want = nil, nil
+	case 4:
+		// integers at and near the limits of int64 and of exact float64 integers
+		xs := []int64{math.MinInt64, math.MinInt64 + 1, math.MaxInt64, -(1 << 53) - 1, 1 << 62, -1000000, 1<<53 + 1}
+		x := xs[verif.Choose("int", len(xs))]
+		arg, num = x, float64(x)
+		want = num
+	case 5:
+		fs := []float64{math.MaxFloat64, -math.MaxFloat64, math.SmallestNonzeroFloat64, -1e-300, 1e300, 0.1, -0.1, 1e22, 123456789012345680000}
+		num = fs[verif.Choose("float", len(fs))]
+		arg, want = num, num
 	}
 	if tpl > 0 {
-		if kind >= 2 {
+		if kind == 2 || kind == 3 {
 			verif.Assume(false)
 		}
 		want = 1 - num
